@@ -132,6 +132,7 @@ class NetRun:
         self.state_diverged = False
         self.inject_at_final_save = None
         self.pending_fault = None
+        self.renames_seen = 0
         self.last_change_t = -1.0
         self.last_change_kind = None
         self.last_save_t = -2.0
@@ -169,9 +170,16 @@ class NetRun:
 
     # ------------------------------------------------------------------ plumbing
     def _fs_trace(self, opname, path):
-        if self.pending_fault is not None and self.fs.armed and opname == self.pending_fault[0]:
-            self.fs.plan[self.fs.opno] = self.pending_fault[1]
-            self.pending_fault = None
+        if self.pending_fault is not None and self.fs.armed:
+            want = self.pending_fault[0]
+            if want == "rename2" and opname == "rename":
+                self.renames_seen += 1
+                if self.renames_seen >= 2:
+                    self.fs.plan[self.fs.opno] = self.pending_fault[1]
+                    self.pending_fault = None
+            elif opname == want:
+                self.fs.plan[self.fs.opno] = self.pending_fault[1]
+                self.pending_fault = None
         if opname == "rename" and ".tmp." in path:
             self.last_save_t = self.world.sim.now
             self.probe("saves_completed")
@@ -184,7 +192,7 @@ class NetRun:
                 self.tick_times.append(sim.now)
                 if self.pending_fault is not None and persistence.need_save:
                     self.fs.arm({})
-                    self.fault_armed = True
+                    self.renames_seen = 0
                 if self.inject_at_save is not None and persistence.need_save:
                     data, self.inject_at_save = self.inject_at_save, None
                     self.world.device.inject(data)
